@@ -36,6 +36,18 @@ def _origin_attr(expr):
     return None
 
 
+def _ports_map_of(e):
+    """Text of X when `e` maps the model's port names to the values of X position by position:
+    {ports()[i]: v for i, v in enumerate(X)}  /  dict(zip(ports(), X))  /  {p: v for p, v in zip(ports(), X)}; else None."""
+    for pat in ("{self._machine_model.get_ports()[M_i]: M_v for M_i, M_v in enumerate(M_x)}",
+                "dict(zip(self._machine_model.get_ports(), M_x))",
+                "{M_p: M_v for M_p, M_v in zip(self._machine_model.get_ports(), M_x)}"):
+        b = pm.match(pat, e)
+        if b is not None:
+            return U(b["M_x"])
+    return None
+
+
 def _dict_value(fd, key, sibling=None):
     """Value expression stored under `key` in a dict display of function fd (the display that also has
     the key `sibling`, if given)."""
@@ -63,8 +75,7 @@ def _r1(ctx):
     # --- port cell / PortPressure
     tcall = [c for c in C.calls_to(cv.node, "_get_port_pressure") if U(c.args[0]).endswith(".port_pressure")]
     dv = _dict_value(fd, "PortPressure", "LatencyCP")
-    d_ok = dv is not None and pm.match(
-        "{self._machine_model.get_ports()[M_i]: M_v for M_i, M_v in enumerate(M_x.port_pressure)}", dv) is not None
+    d_ok = dv is not None and (_ports_map_of(dv) or "").endswith(".port_pressure")
     loops = [n for n in ast.walk(cv.node) if isinstance(n, ast.For) and U(n.iter) == cv.params()[1]]
     t_ok = bool(tcall) and bool(loops) and U(tcall[0].args[0]) == "%s.port_pressure" % U(loops[0].target)
     kern = [g for g in ast.walk(fd.node) if isinstance(g, ast.comprehension) and U(g.iter) == fd.params()[1]]
@@ -182,8 +193,7 @@ def _r1(ctx):
             if isinstance(k, ast.Constant) and k.value == "PortPressure":
                 dpp = v
     t_dom, d_dom = summed(cv), summed(fd)
-    d_ok = bool(dsum) and dpp is not None and pm.match(
-        "{self._machine_model.get_ports()[M_i]: M_v for M_i, M_v in enumerate(%s)}" % U(dsum[0][1]["M_t"]), dpp) is not None
+    d_ok = bool(dsum) and dpp is not None and _ports_map_of(dpp) == U(dsum[0][1]["M_t"])
     t_ok = bool(tsum) and any(U(c.args[0]) == U(tsum[0][1]["M_t"]) for c in C.calls_to(cv.node, "_get_port_pressure"))
     whole_t = bool(t_dom) and all(v is True for _, v, _ in t_dom)
     whole_d = bool(d_dom) and all(v is True for _, v, _ in d_dom)
@@ -224,7 +234,10 @@ def _r1(ctx):
            and n.func.attr == "format" and isinstance(n.func.value, ast.Constant) and "{:>5}" in str(n.func.value.value)]
     if tcp and fmt:
         lcdv = pm.find("M_s = M_d[M_v]['latency']", cv.node)
-        ok = [U(a) for a in fmt[0].args] == [U(tcp[0][1]["M_s"]), U(lcdv[0][1]["M_s"]) if lcdv else "?"]
+        import re as _re
+        fields = _re.findall(r"\{([^{}]*)\}", str(fmt[0].func.value.value))
+        wide = [U(a) for fld, a in zip(fields, fmt[0].args) if fld == ":>5"] if len(fields) == len(fmt[0].args) else None
+        ok = wide == [U(tcp[0][1]["M_s"]), U(lcdv[0][1]["M_s"]) if lcdv else "?"]
         pair("summary line prints (CP total, LCD figure)", ok, cv.where(fmt[0]), "printed %s" % [U(a) for a in fmt[0].args],
              recognised=bool(lcdv))
     else:
@@ -584,33 +597,38 @@ def _r4(ctx):
     ctx.judge(ok, len(aw) == 1, "R4", "arch warning exactly when no --arch was given", f.where(aw[0].value) if aw else f.where(),
               "arch_warning is %s" % ([U(a.value) for a in aw]), f.qname, "arch warning definition")
     lw = [a for a in flag_defs("length_warning") if isinstance(a, ast.stmt)]
-    good = False
-    vals = {}
-    if len(lw) == 2:
-        for a in lw:
-            facts = [(U(e), p) for e, p in C.facts_at(a)]
-            if ("args.lines", True) in facts:
-                vals["lines"] = a.value
-            elif ("args.lines", False) in facts:
-                vals["nolines"] = a.value
-        if set(vals) == {"nolines"}:
-            # default-then-override: an unconditional `flag = False` before the branch on args.lines
-            dflt = [a for a in lw if a.value is not vals["nolines"] and not any("args.lines" in t for t, _ in
-                                                                             [(U(e), p) for e, p in C.facts_at(a)])]
-            if len(dflt) == 1 and C.cfg_of(f).dominates(dflt[0], [a for a in lw if a is not dflt[0]][0]):
-                vals["lines"] = dflt[0].value
-        if set(vals) == {"lines", "nolines"}:
-            v = vals["nolines"]
-            test = v.test if isinstance(v, ast.IfExp) and U(v.body) == "True" and U(v.orelse) == "False" else v
-            # names that hold the same list as `kernel` (kernel = K / K = kernel) count as the kernel
-            aliases = {U(a.value) for a in C.assigns_to(f.node, "kernel") if isinstance(a, ast.Assign) and isinstance(a.value, ast.Name)}
-            norm = lambda t: re.sub(r"\b(%s)\b" % "|".join(re.escape(x) for x in aliases), "kernel", t) if aliases else t
-            parts = {norm(U(x)) for x in test.values} if isinstance(test, ast.BoolOp) and isinstance(test.op, ast.And) else set()
-            eq = C.canon_eq("len(kernel)", "len(parsed_code)")
-            good = U(vals["lines"]) == "False" and eq in parts and len(parts) == 2 and bool(
-                parts & {"len(kernel) > 100", "len(parsed_code) > 100"})
-    ctx.judge(good, len(lw) == 2 and set(vals) == {"lines", "nolines"}, "R4", "length warning exactly when unmarked, more than 100 parsed lines, no --lines",
-              f.where(lw[0]) if lw else f.where(), "length_warning definitions: %s" % [U(a.value) for a in lw], f.qname,
+    # The condition under which the flag ends up True, whatever the spelling (two-armed if, default False then override,
+    # conditional expression, `if cond: flag = True`): for every definition the conjuncts (its guards + its value's test);
+    # a constant-False definition contributes nothing.
+    aliases = {U(a.value) for a in C.assigns_to(f.node, "kernel") if isinstance(a, ast.Assign) and isinstance(a.value, ast.Name)}
+    norm = lambda t: re.sub(r"\b(%s)\b" % "|".join(re.escape(x) for x in aliases), "kernel", t) if aliases else t
+    true_conds, understood = [], bool(lw)
+    for a in lw:
+        guards = C.norm_facts(a)
+        v = a.value
+        test = v.test if isinstance(v, ast.IfExp) and U(v.body) == "True" and U(v.orelse) == "False" else v
+        if isinstance(test, ast.Constant) and test.value is False:
+            continue
+        if isinstance(test, ast.Constant) and test.value is True:
+            own = set()
+        elif isinstance(test, ast.BoolOp) and isinstance(test.op, ast.And):
+            own = {(C.CT(U(x)), True) for x in test.values}
+        elif isinstance(test, ast.Compare):
+            own = {(C.CT(U(test)), True)}
+        else:
+            understood = False
+            continue
+        true_conds.append({(norm(t), p_) for t, p_ in (guards | own)})
+    eq = C.canon_eq("len(kernel)", "len(parsed_code)")
+    want_sets = [{("args.lines", False), (eq, True), (C.CT("len(kernel) > 100"), True)},
+                 {("args.lines", False), (eq, True), (C.CT("len(parsed_code) > 100"), True)}]
+    # guards that hold on every path to the analysis anyway (e.g. the parse succeeded) are not part of the condition
+    base_facts = {(norm(t), p_) for t, p_ in C.norm_facts(lw[0])} if lw else set()
+    common = set.intersection(*[{(norm(t), p_) for t, p_ in C.norm_facts(a)} for a in lw]) if lw else set()
+    good = understood and len(true_conds) == 1 and (true_conds[0] - common) in want_sets
+    ctx.judge(good, understood and len(true_conds) >= 1, "R4", "length warning exactly when unmarked, more than 100 parsed lines, no --lines",
+              f.where(lw[0]) if lw else f.where(), "length_warning is True under %s (definitions: %s)" % (
+                  [sorted(("" if p_ else "not ") + t for t, p_ in (c - common)) for c in true_conds], [U(a.value) for a in lw]), f.qname,
               "length warning definition")
     kern = [a for a in C.assigns_to(f.node, "kernel") if C.is_call_to(a.value, "reduce_to_section")]
     if not kern:
